@@ -403,7 +403,7 @@ def run(tier, seed):
 
     thorough = tier == "thorough"
     # ---- A: HeapImpl => PQ, and PQ's own properties, with the dump for C
-    caps = [3, 4] + ([5] if thorough else [])
+    caps = [1, 2, 3, 4] + ([5] if thorough else [])
     jobs = []
     dumpdir = H.subdir("c05")
     with ThreadPoolExecutor(max_workers=6) as ex:
@@ -442,7 +442,7 @@ def run(tier, seed):
     rng = random.Random(seed * 7919 + 5)
     nh = 400 if thorough else 60
     nv = 0
-    for cap in (4, 7, 15, 20):
+    for cap in (1, 2, 4, 7, 15, 20):
         for pol in ("min", "max"):
             trs = [record_history(Heap, cap, pol, rng, rng.randrange(10, 60 if cap < 15 else 300), rng.choice([2, 3, 5, 50])) for _ in range(nh)]
             rep.sample({"cap": cap, "policy": pol, "first_ops": trs[0]["ops"][:6]}, limit=3)
